@@ -261,6 +261,17 @@ fn snap_line(s: &Snapshot) -> String {
 pub fn cold_main(args: &[String]) -> ! {
     let text = std::fs::read_to_string(&args[0]).unwrap_or_default();
     let v: Value = serde_json::from_str(&text).unwrap_or(Value::Null);
+    if let Some(kind) = v.get("render").and_then(|x| x.as_str()) {
+        let bc = BuildCase::from_json(&v["build"]).unwrap_or_else(|| std::process::exit(3));
+        let prog: Vec<SvgOp> = v["program"].as_array().map(|a| a.iter().filter_map(svg_op_from).collect()).unwrap_or_default();
+        let h = catch(|| match bc.builder().build() {
+            Ok(q) => render_hash(&q, kind, &prog),
+            Err(_) => 1,
+        })
+        .unwrap_or(2);
+        println!("COLD {:016x}", h);
+        std::process::exit(0)
+    }
     match BuildCase::from_json(&v) {
         Some(bc) => {
             println!("COLD {}", snap_line(&snap_build(&bc.builder())));
@@ -268,6 +279,61 @@ pub fn cold_main(args: &[String]) -> ! {
         }
         None => std::process::exit(3),
     }
+}
+
+/// hash of one rendering of `q` by a fresh renderer given the program in call order
+fn render_hash(q: &QRCode, kind: &str, prog: &[SvgOp]) -> u64 {
+    match kind {
+        "text" => hash_bytes(q.to_str().as_bytes()),
+        "svg" => {
+            let mut b = SvgBuilder::default();
+            for op in prog {
+                apply_svg_op(&mut b, op);
+            }
+            hash_bytes(b.to_str(q).as_bytes())
+        }
+        _ => {
+            let mut b = ImageBuilder::default();
+            for op in prog {
+                apply_svg_op(&mut b, op);
+            }
+            match b.to_bytes(q) {
+                Ok(p) => hash_bytes(&p),
+                Err(_) => 3,
+            }
+        }
+    }
+}
+
+fn cold_run(job: &Value) -> Option<String> {
+    if std::env::var("FQV_IN_FUZZ").is_ok() {
+        return None;
+    }
+    let exe = std::env::current_exe().ok()?;
+    let dir = std::env::temp_dir().join(format!("fqv-cold-{}", std::process::id()));
+    let _ = std::fs::create_dir_all(&dir);
+    let k = COLD_SEQ.fetch_add(1, std::sync::atomic::Ordering::SeqCst);
+    let path = dir.join(format!("{}.json", k));
+    std::fs::write(&path, job.to_string()).ok()?;
+    let out = std::process::Command::new(exe).arg("__cold").arg(&path).output().ok();
+    let _ = std::fs::remove_file(&path);
+    let out = out?;
+    let text = String::from_utf8_lossy(&out.stdout);
+    text.lines().find_map(|l| l.strip_prefix("COLD ").map(|x| x.to_string()))
+}
+
+/// A rendering made in this process (after whatever history) against the same rendering in a cold process.
+fn cold_render_verdict(bc: &BuildCase, kind: &str, prog: &[SvgOp], warm_hash: u64, what: &str) -> Result<bool, Fail> {
+    let job = json!({"build": bc.to_json(), "render": kind, "program": prog.iter().map(svg_op_json).collect::<Vec<_>>()});
+    let Some(cold) = cold_run(&job) else { return Ok(false) };
+    let w = format!("{:016x}", warm_hash);
+    if cold != w {
+        return fail(
+            "render_history_dependent:differs_from_cold_process",
+            format!("{}: {} rendering in this process hashes to {} but the same QR code and renderer options give {} in a fresh process ({:?}; program {})", what, kind, w, cold, bc, Value::Array(prog.iter().map(svg_op_json).collect())),
+        );
+    }
+    Ok(true)
 }
 
 static COLD_SEQ: std::sync::atomic::AtomicU64 = std::sync::atomic::AtomicU64::new(0);
@@ -377,6 +443,8 @@ pub fn check_history(h: &History, obs: &mut Obs) -> Result<(), Fail> {
     let mut shared = QRBuilder::new(h.input.clone());
     let mut model = Opts::default();
     let mut last: Option<Box<QRCode>> = None;
+    let mut last_case: Option<BuildCase> = None;
+    let mut renders = 0u64;
     let mut builds = 0;
     let mut overwritten = 0;
     for (i, op) in h.ops.iter().enumerate() {
@@ -446,10 +514,10 @@ pub fn check_history(h: &History, obs: &mut Obs) -> Result<(), Fail> {
                         format!("op {}: build after this setter history gives {:?}, a fresh builder with the final options {:?} gives {:?} ({} differ; history {})", i, a, model, fresh, what, hist_json(h)),
                     );
                 }
-                last = match catch(|| shared.build().ok().map(Box::new)) {
-                    Ok(Some(q)) => Some(q),
-                    _ => last,
-                };
+                if let Ok(Some(q)) = catch(|| shared.build().ok().map(Box::new)) {
+                    last = Some(q);
+                    last_case = Some(BuildCase::new(h.input.clone(), model.clone()));
+                }
             }
             Op::RenderText => {
                 if let Some(q) = &last {
@@ -457,6 +525,17 @@ pub fn check_history(h: &History, obs: &mut Obs) -> Result<(), Fail> {
                     let t1 = pc("to_str", || q.to_str())?;
                     let t2 = pc("to_str", || q.to_str())?;
                     ensure!(t1 == t2, "text_unstable", "op {}: to_str() twice on the same QR code differs", i);
+                    // specification-level oracle (C16's) decides whether to ask a cold process; one in eight is asked anyway
+                    renders += 1;
+                    if let Some(lc) = &last_case {
+                        let vals: Vec<bool> = q.data[..q.size * q.size].iter().map(|m| m.value()).collect();
+                        let suspicious = super::c16::check_text(&t1, &vals, q.size, lc).is_err();
+                        if suspicious || (hash_bytes(&h.input) + renders) % 8 == 0 {
+                            if cold_render_verdict(lc, "text", &[], hash_bytes(t1.as_bytes()), &format!("op {}", i))? {
+                                obs.label("cold_process_consulted:render");
+                            }
+                        }
+                    }
                     ensure!(snapshot(&Ok((**q).clone())) == before, "render_mutates", "op {}: to_str() modified the QR code", i);
                     obs.label("render:text");
                 }
@@ -488,6 +567,18 @@ pub fn check_history(h: &History, obs: &mut Obs) -> Result<(), Fail> {
                         canon.len()
                     );
                     ensure!(snapshot(&Ok((**q).clone())) == before, "render_mutates", "op {}: SvgBuilder::to_str modified the QR code", i);
+                    renders += 1;
+                    if let Some(lc) = &last_case {
+                        let vals: Vec<bool> = q.data[..q.size * q.size].iter().map(|m| m.value()).collect();
+                        let cell = std::cell::RefCell::new(crate::engine::LocalStats::default());
+                        let mut scratch = Obs::new(&cell);
+                        let suspicious = super::c12::check_svg(&s1, &vals, q.size, &fold_svg(prog), &mut scratch).is_err();
+                        if suspicious || (hash_bytes(&h.input) + renders) % 8 == 0 {
+                            if cold_render_verdict(lc, "svg", prog, hash_bytes(s1.as_bytes()), &format!("op {}", i))? {
+                                obs.label("cold_process_consulted:render");
+                            }
+                        }
+                    }
                     obs.label("render:svg");
                 }
             }
@@ -509,6 +600,14 @@ pub fn check_history(h: &History, obs: &mut Obs) -> Result<(), Fail> {
                     ensure!(p1 == p2, "png_unstable", "op {}: the same ImageBuilder renders two different PNGs for the same QR code", i);
                     ensure!(p1 == canon, "png_history_dependent", "op {}: PNG after setter program differs from a builder given only the final values (program {:?})", i, prog);
                     ensure!(snapshot(&Ok((**q).clone())) == before, "render_mutates", "op {}: ImageBuilder::to_bytes modified the QR code", i);
+                    renders += 1;
+                    if let (Some(lc), Ok(bytes)) = (&last_case, &p1) {
+                        if (hash_bytes(&h.input) + renders) % 4 == 0 {
+                            if cold_render_verdict(lc, "png", prog, hash_bytes(bytes), &format!("op {}", i))? {
+                                obs.label("cold_process_consulted:render");
+                            }
+                        }
+                    }
                     obs.label("render:png");
                 }
             }
